@@ -96,6 +96,7 @@ def jobs_c10(prop, tier, seed):
     execs.append(({"cont": "pool", "elem": "-", "n": 40}, []))
     execs.append(({"cont": "sharedeq", "elem": "-"}, []))  # shared allocators (joint_allocator) and operator!=
     execs.append(({"cont": "anyeq", "elem": "-"}, []))     # exhibits the listed open finding F10
+    execs.append(({"cont": "pmreq", "elem": "-"}, []))     # memory_resource_adapter: equal only to itself
     # ... and what it does to a container: libstdc++ clears the target of a copy assignment before it takes the
     # source's allocator only if the two allocators compare unequal; any_std_allocator compares equal always, so the
     # old nodes are released through the new allocator object (same finding F10, matched by the kf tag)
